@@ -79,6 +79,129 @@ func renderKV(raw map[string]string, kv *fakeNode) map[string]string {
 	return out
 }
 
+func (m *c26Model) register(token, host string) {
+	if m.reg[token] == nil {
+		m.reg[token] = map[string]bool{}
+	}
+	m.reg[token][host] = true
+}
+
+func (m *c26Model) clone() *c26Model {
+	o := &c26Model{reg: map[string]map[string]bool{}, routes: map[string]*[3]*c26Route{}, custom: map[string]*c26Binding{}, fixed: m.fixed}
+	for t, hs := range m.reg {
+		o.reg[t] = map[string]bool{}
+		for h := range hs {
+			o.reg[t][h] = true
+		}
+	}
+	for h, s := range m.routes {
+		c := *s
+		o.routes[h] = &c
+	}
+	for h, b := range m.custom {
+		o.custom[h] = b
+	}
+	return o
+}
+
+// resync makes m the state the store is in after a request that a storage
+// fault interrupted: per key either pre's or post's value (diffEither has
+// already established that it is one of the two).
+func (m *c26Model) resync(pre, post *c26Model, got map[string]string) {
+	wantPost := post.expected()
+	pick := func(key string) *c26Model {
+		if v, ok := got[key]; ok && v == wantPost[key] {
+			return post
+		}
+		if _, ok := got[key]; !ok {
+			if _, inPost := wantPost[key]; !inPost {
+				return post
+			}
+		}
+		return pre
+	}
+	n := pre.clone()
+	hostsSeen := map[string]bool{}
+	for h := range pre.routes {
+		hostsSeen[h] = true
+	}
+	for h := range post.routes {
+		hostsSeen[h] = true
+	}
+	for h := range hostsSeen {
+		var slots [3]*c26Route
+		any := false
+		for i := 0; i < 3; i++ {
+			src := pick("S " + tun.RoutingKey(h, i+1))
+			if s := src.routes[h]; s != nil && s[i] != nil {
+				slots[i] = s[i]
+				any = true
+			}
+		}
+		if any {
+			n.routes[h] = &slots
+		} else {
+			delete(n.routes, h)
+		}
+	}
+	toks := map[string]bool{}
+	for t := range pre.reg {
+		toks[t] = true
+	}
+	for t := range post.reg {
+		toks[t] = true
+	}
+	for t := range toks {
+		src := pick("P " + tun.ClientHostnamesPrefix(&protocol.ClientToken{Token: []byte(t)}))
+		n.reg[t] = map[string]bool{}
+		for h := range src.reg[t] {
+			n.reg[t][h] = true
+		}
+	}
+	cs := map[string]bool{}
+	for h := range pre.custom {
+		cs[h] = true
+	}
+	for h := range post.custom {
+		cs[h] = true
+	}
+	for h := range cs {
+		src := pick("S " + tun.CustomHostnameKey(h))
+		if b := src.custom[h]; b != nil {
+			n.custom[h] = b
+		} else {
+			delete(n.custom, h)
+		}
+	}
+	m.reg, m.routes, m.custom = n.reg, n.routes, n.custom
+}
+
+// diffEither reports keys of got that are in neither of the two states.
+func diffEither(a, b, got map[string]string) string {
+	var d []string
+	keys := map[string]bool{}
+	for k := range a {
+		keys[k] = true
+	}
+	for k := range b {
+		keys[k] = true
+	}
+	for k := range got {
+		keys[k] = true
+	}
+	for k := range keys {
+		g, gok := got[k]
+		av, aok := a[k]
+		bv, bok := b[k]
+		if (gok == aok && g == av) || (gok == bok && g == bv) {
+			continue
+		}
+		d = append(d, fmt.Sprintf("%s: got %q (present=%v), old %q (present=%v), new %q (present=%v)", k, g, gok, av, aok, bv, bok))
+	}
+	sort.Strings(d)
+	return strings.Join(d, "\n")
+}
+
 func (m *c26Model) expected() map[string]string {
 	out := map[string]string{}
 	for k, v := range m.fixed {
@@ -133,12 +256,18 @@ type c26Step struct {
 	Servers []string `json:"servers,omitempty"` // symbolic server names
 	Claimed string   `json:"claimed,omitempty"`
 	Result  string   `json:"result,omitempty"`
+	// storage fault armed for the step and the KV calls it made fail
+	Fault      string   `json:"fault,omitempty"`
+	FaultFired []string `json:"fault_fired,omitempty"`
 }
+
+var c26FaultOps = []string{"Put", "Delete", "Delete", "PrefixAppend", "PrefixRemove", "Acquire", "Get", "PrefixContains", "PrefixList", "any-mutation", "any-read", "any"}
 
 func TestC26(t *testing.T) {
 	rec := ev.New(t, "C26")
-	rec.Rule("rapid state machine: 2..3 clients with their own certificates (one token extends another, one is a v2 token), 6..18 steps of generate / registered-hostnames / publish / unpublish / release / custom-bind, hostnames chosen among own, another client's, released, never-registered, empty and key-shaped strings; server lists over 4 known servers, 2 unknown ones, an empty node, with duplicates (exact and same-address-other-id) and 0..5 entries; the identity claimed in the stream header is generated independently of the certificate. Direct handler calls with a delegation context against a real kv/memory store. Oracle: reference model of registrations, route slots and custom bindings; after every step the complete KV content must equal the model. Non-trivial sequence: contains a cross-client attempt (publish/unpublish/release of a hostname registered to another client) and a publish with a duplicate server. Distinct = the symbolic step list.")
-	rec.Assume("requested servers are distinct when their addresses differ (destination records are keyed by address); route slots above k are left as they were (the statement speaks of slots 1..k only)",
+	rec.Rule("rapid state machine: 2..3 clients with their own certificates (one token extends another, one is a v2 token), 6..18 steps of generate / registered-hostnames / publish / unpublish / release / custom-bind, one step in four under a storage fault (Put, Delete, PrefixAppend, PrefixRemove, Acquire, Get, PrefixContains, PrefixList, any mutation, any read or any operation failing - every matching call or only the n-th (n<=5), on any key or only on route / custom-binding / registration / lease / destination keys - with a plain, retryable-chord, node-gone or deadline error; lease Release is never failed), hostnames chosen among own, another client's, released, never-registered, empty and key-shaped strings; server lists over 4 known servers, 2 unknown ones, an empty node, with duplicates (exact and same-address-other-id) and 0..5 entries; the identity claimed in the stream header is generated independently of the certificate. Direct handler calls with a delegation context against a real kv/memory store. Oracle: reference model of registrations, route slots and custom bindings; after every step the complete KV content must equal the model. Under a storage fault: a request that reports success must have its complete effect (publish: the routes it lists as published), a request that fails leaves every key it would change in its old or its new state and nothing else touched. Non-trivial sequence: contains a cross-client attempt (publish/unpublish/release of a hostname registered to another client) and a publish with a duplicate server. Distinct = the symbolic step list.")
+	rec.Assume("a failed lease Release is a lease-expiry matter (C19) and is not injected; PublishTunnel by design succeeds when at least one of its route Puts succeeded and lists the published ones",
+		"requested servers are distinct when their addresses differ (destination records are keyed by address); route slots above k are left as they were (the statement speaks of slots 1..k only)",
 		"custom bindings are created by the harness exactly as AcmeValidate stores them (SaveCustomHostname + PrefixAppend); AcmeValidate itself is C29")
 
 	selfT := &protocol.Node{Id: 11, Address: "tun-self:443"}
@@ -163,6 +292,28 @@ func TestC26(t *testing.T) {
 		newClientV1("A", 5001, "tokA"),
 		newClientV1("B", 5002, "tokA2"), // extends A's token
 		newClientV2("C", 5003, []byte("client-c-public-key-hash-0123456")),
+	}
+
+	// witness of the listed known finding (if it is listed): a release whose
+	// delete of the custom-hostname binding fails still reports success
+	{
+		const sig = "release-reports-success-but-custom-binding-remains-after-storage-fault"
+		fx.kv.MemoryKV = memory.WithHashFn(chord.Hash)
+		c, h := allClients[0], "witness.custom.example.org"
+		ctx0 := context.Background()
+		tun.SaveCustomHostname(ctx0, fx.kv.MemoryKV, h, &protocol.CustomHostname{ClientIdentity: c.identity(), ClientToken: c.token()})
+		fx.kv.MemoryKV.PrefixAppend(ctx0, []byte(tun.ClientHostnamesPrefix(c.token())), []byte(h))
+		f := &kvFault{Ops: "Delete", KeyPrefix: "/tunnel/client/custom/", Err: "plain"}
+		f.install(fx.kv)
+		_, err := fx.srv.ReleaseTunnel(c.delegationCtx(ctx0, nil), &protocol.ReleaseTunnelRequest{Hostname: h})
+		fx.kv.setFault(nil)
+		left, _ := fx.kv.MemoryKV.Get(ctx0, []byte(tun.CustomHostnameKey(h)))
+		stillReg, _ := fx.kv.MemoryKV.PrefixContains(ctx0, []byte(tun.ClientHostnamesPrefix(c.token())), []byte(h))
+		reproduced := err == nil && len(left) > 0 && !stillReg
+		rec.Note("witness_release_with_failed_binding_delete", fmt.Sprintf("err=%v binding_left=%v registration_left=%v", err, len(left) > 0, stillReg))
+		if ev.Known("C26", sig) {
+			rec.Witnessed(sig, reproduced)
+		}
 	}
 
 	ev.RapidCheck(t, 2000, 100000, func(t *rapid.T) {
@@ -190,12 +341,6 @@ func TestC26(t *testing.T) {
 		nCustom := 0
 
 		owned := func(c *client, h string) bool { return model.reg[c.Token][h] }
-		registerHost := func(c *client, h string) {
-			if model.reg[c.Token] == nil {
-				model.reg[c.Token] = map[string]bool{}
-			}
-			model.reg[c.Token][h] = true
-		}
 		// pickHost returns the literal hostname, its symbolic name, and whether it
 		// is currently registered to a client other than c
 		pickHost := func(c *client, label string) (string, string, bool) {
@@ -251,57 +396,85 @@ func TestC26(t *testing.T) {
 				opw = 0
 			}
 			step := c26Step{Client: c.Name, Claimed: claimedName}
-			mut0 := fx.kv.mutations.Load()
-			_ = mut0
+			// storage fault for this step (none for 3 of 4 steps)
+			var fault *kvFault
+			if rapid.IntRange(0, 3).Draw(t, "fault?") == 0 {
+				fault = &kvFault{
+					Ops:       rapid.SampledFrom(c26FaultOps).Draw(t, "fault-op"),
+					Nth:       rapid.IntRange(0, 5).Draw(t, "fault-nth"),
+					KeyPrefix: rapid.SampledFrom([]string{"", "", "", "/tunnel/bundle/", "/tunnel/client/custom/", "/tunnel/client/hostnames/", "/tunnel/client/lease/", "/destination/"}).Draw(t, "fault-keys"),
+					Err:       rapid.SampledFrom(kvFaultErrNames).Draw(t, "fault-err"),
+					Skip:      map[string]bool{"Release": true},
+				}
+				step.Fault = fault.String()
+			}
 			fail := func(sig string, format string, args ...any) {
+				fx.kv.setFault(nil)
 				step.Result = "VIOLATION"
 				steps = append(steps, step)
 				diffDoc := map[string]any{"clients": nClients, "steps": steps}
 				rec.Fail(t, sig, diffDoc, format, args...)
 			}
+			pre := model.clone()
+			// what the step does: filled in by the op
+			var (
+				opErr     error
+				wantOK    bool            // the model accepts the request (healthy storage)
+				apply     func(*c26Model) // the state change of a successful request
+				partialOK bool            // success may cover only part of the change (publish tolerates failed Puts)
+				published []*protocol.Node
+				wantPub   []*c26Server
+				opHost    string
+				sigBase   string
+				descr     string
+				skipJudge bool
+			)
+			fired := fault.install(fx.kv)
 			switch {
 			case opw < 3: // generate
 				step.Op = "generate"
+				sigBase, descr = "generate", fmt.Sprintf("GenerateHostname(%s)", c.Name)
 				resp, err := fx.srv.GenerateHostname(ctx, &protocol.GenerateHostnameRequest{})
-				if err != nil {
-					fail("generate-hostname-failed", "GenerateHostname for registered client %s: %v", c.Name, err)
-				}
-				h := resp.GetHostname()
-				if h == "" {
-					fail("generate-hostname-empty", "GenerateHostname returned an empty hostname")
-				}
-				for _, o := range hosts {
-					if o.name == h {
-						// diceware collision (2^-60): treat as unmet precondition
-						rec.Inconclusive("generated hostname collided")
-						t.Skip("collision")
+				opErr, wantOK = err, true
+				if err == nil {
+					h := resp.GetHostname()
+					if h == "" {
+						fail("generate-hostname-empty", "GenerateHostname returned an empty hostname")
 					}
+					for _, o := range hosts {
+						if o.name == h {
+							// diceware collision (2^-60): treat as unmet precondition
+							fx.kv.setFault(nil)
+							rec.Inconclusive("generated hostname collided")
+							t.Skip("collision")
+						}
+					}
+					hosts = append(hosts, &hostInfo{name: h, owner: c, first: c})
+					step.Host = fmt.Sprintf("h%d", len(hosts)-1)
+					apply = func(m *c26Model) { m.register(c.Token, h) }
 				}
-				hosts = append(hosts, &hostInfo{name: h, owner: c, first: c})
-				registerHost(c, h)
-				step.Host = fmt.Sprintf("h%d", len(hosts)-1)
-				step.Result = "ok"
 			case opw < 4: // list
 				step.Op = "registered-hostnames"
+				sigBase, descr = "registered-hostnames", fmt.Sprintf("RegisteredHostnames(%s)", c.Name)
 				resp, err := fx.srv.RegisteredHostnames(ctx, &protocol.RegisteredHostnamesRequest{})
-				if err != nil {
-					fail("registered-hostnames-failed", "RegisteredHostnames(%s): %v", c.Name, err)
+				opErr, wantOK = err, true
+				if err == nil {
+					got := append([]string{}, resp.GetHostnames()...)
+					sort.Strings(got)
+					var want []string
+					for h := range model.reg[c.Token] {
+						want = append(want, h)
+					}
+					sort.Strings(want)
+					if fmt.Sprint(got) != fmt.Sprint(want) {
+						fail("registered-hostnames-mismatch", "RegisteredHostnames(%s) = %v, model %v", c.Name, got, want)
+					}
 				}
-				got := append([]string{}, resp.GetHostnames()...)
-				sort.Strings(got)
-				var want []string
-				for h := range model.reg[c.Token] {
-					want = append(want, h)
-				}
-				sort.Strings(want)
-				if fmt.Sprint(got) != fmt.Sprint(want) {
-					fail("registered-hostnames-mismatch", "RegisteredHostnames(%s) = %v, model %v", c.Name, got, want)
-				}
-				step.Result = "ok"
 			case opw < 11: // publish
 				step.Op = "publish"
 				h, sym, foreign := pickHost(c, "publish-host")
 				step.Host = sym
+				opHost = h
 				n := rapid.IntRange(0, 5).Draw(t, "nservers")
 				var reqServers []*protocol.Node
 				var distinct []*c26Server
@@ -346,97 +519,60 @@ func TestC26(t *testing.T) {
 				for _, s := range distinct {
 					allKnown = allKnown && s.Known
 				}
-				wantOK := owned(c, h) && len(distinct) >= 1 && len(distinct) <= tun.NumRedundantLinks && allKnown
+				wantOK = owned(c, h) && len(distinct) >= 1 && len(distinct) <= tun.NumRedundantLinks && allKnown
 				if foreign {
 					crossClient = true
 				}
 				if dup && owned(c, h) {
 					dupPublish = true
 				}
+				sigBase = "publish"
+				descr = fmt.Sprintf("PublishTunnel(%s, %s, %v) [owned=%v distinct=%d allKnown=%v]", c.Name, sym, step.Servers, owned(c, h), len(distinct), allKnown)
 				resp, err := fx.srv.PublishTunnel(ctx, &protocol.PublishTunnelRequest{Hostname: h, Servers: reqServers})
-				step.Result = "ok"
-				if err != nil {
-					step.Result = "refused"
-				}
-				if (err == nil) != wantOK {
-					why := fmt.Sprintf("owned=%v distinct=%d allKnown=%v", owned(c, h), len(distinct), allKnown)
-					if err == nil {
-						fail("publish-succeeded-unexpectedly", "PublishTunnel(%s, %s, %v) succeeded but the model refuses it (%s)", c.Name, sym, step.Servers, why)
-					}
-					fail("publish-refused-unexpectedly", "PublishTunnel(%s, %s, %v) failed with %v but the model accepts it (%s)", c.Name, sym, step.Servers, err, why)
-				}
-				if wantOK {
-					slots := model.routes[h]
+				opErr, partialOK, published, wantPub = err, true, resp.GetPublished(), distinct
+				apply = func(m *c26Model) {
+					slots := m.routes[h]
 					if slots == nil {
 						slots = &[3]*c26Route{}
-						model.routes[h] = slots
+						m.routes[h] = slots
 					}
 					for i, s := range distinct {
 						slots[i] = &c26Route{Client: c.identity(), Chord: s.Chord, Tunnel: s.Tunnel, Host: h}
-					}
-					pub := resp.GetPublished()
-					if len(pub) != len(distinct) {
-						fail("publish-response-mismatch", "PublishTunnel published %d endpoints, want %d", len(pub), len(distinct))
-					}
-					for i, s := range distinct {
-						if !nodeEq(pub[i], s.Tunnel) {
-							fail("publish-response-mismatch", "published[%d] = %s want %s", i, nodeStr(pub[i]), nodeStr(s.Tunnel))
-						}
 					}
 				}
 			case opw < 14: // unpublish
 				step.Op = "unpublish"
 				h, sym, foreign := pickHost(c, "unpublish-host")
 				step.Host = sym
+				opHost = h
 				if foreign {
 					crossClient = true
 				}
-				wantOK := owned(c, h)
+				wantOK = owned(c, h)
+				sigBase, descr = "unpublish", fmt.Sprintf("UnpublishTunnel(%s, %s)", c.Name, sym)
 				_, err := fx.srv.UnpublishTunnel(ctx, &protocol.UnpublishTunnelRequest{Hostname: h})
-				step.Result = "ok"
-				if err != nil {
-					step.Result = "refused"
-				}
-				if (err == nil) != wantOK {
-					if err == nil {
-						fail("unpublish-succeeded-unexpectedly", "UnpublishTunnel(%s, %s) succeeded for a hostname not registered to the caller", c.Name, sym)
-					}
-					fail("unpublish-refused-unexpectedly", "UnpublishTunnel(%s, %s) of an own hostname failed: %v", c.Name, sym, err)
-				}
-				if wantOK {
-					delete(model.routes, h)
-				}
+				opErr = err
+				apply = func(m *c26Model) { delete(m.routes, h) }
 			case opw < 17: // release
 				step.Op = "release"
 				h, sym, foreign := pickHost(c, "release-host")
 				step.Host = sym
+				opHost = h
 				if foreign {
 					crossClient = true
 				}
-				wantOK := owned(c, h)
+				wantOK = owned(c, h)
+				sigBase, descr = "release", fmt.Sprintf("ReleaseTunnel(%s, %s)", c.Name, sym)
 				_, err := fx.srv.ReleaseTunnel(ctx, &protocol.ReleaseTunnelRequest{Hostname: h})
-				step.Result = "ok"
-				if err != nil {
-					step.Result = "refused"
-				}
-				if (err == nil) != wantOK {
-					if err == nil {
-						fail("release-succeeded-unexpectedly", "ReleaseTunnel(%s, %s) succeeded for a hostname not registered to the caller", c.Name, sym)
-					}
-					fail("release-refused-unexpectedly", "ReleaseTunnel(%s, %s) of an own hostname failed: %v", c.Name, sym, err)
-				}
-				if wantOK {
-					delete(model.routes, h)
-					delete(model.reg[c.Token], h)
-					delete(model.custom, h)
-					for _, hi := range hosts {
-						if hi.name == h {
-							hi.owner = nil
-						}
-					}
+				opErr = err
+				apply = func(m *c26Model) {
+					delete(m.routes, h)
+					delete(m.reg[c.Token], h)
+					delete(m.custom, h)
 				}
 			default: // custom-bind (harness writes what AcmeValidate writes)
 				step.Op = "custom-bind"
+				skipJudge = true
 				h := fmt.Sprintf("c%d.custom.example.org", nCustom)
 				nCustom++
 				if err := tun.SaveCustomHostname(context.Background(), fx.kv.MemoryKV, h, &protocol.CustomHostname{ClientIdentity: c.identity(), ClientToken: c.token()}); err != nil {
@@ -444,20 +580,109 @@ func TestC26(t *testing.T) {
 				}
 				fx.kv.MemoryKV.PrefixAppend(context.Background(), []byte(tun.ClientHostnamesPrefix(c.token())), []byte(h))
 				hosts = append(hosts, &hostInfo{name: h, owner: c, first: c})
-				registerHost(c, h)
+				model.register(c.Token, h)
 				model.custom[h] = &c26Binding{Token: c.Token, Ident: c.identity()}
 				step.Host = fmt.Sprintf("h%d", len(hosts)-1)
 				step.Result = "ok"
 			}
-			// the whole store must equal the model after every step
+			fx.kv.setFault(nil)
+			firedCalls := fired()
+			faulted := len(firedCalls) > 0
+			step.FaultFired = firedCalls
 			got := renderKV(fx.kv.snapshotMap(), fx.kv)
+			if !skipJudge {
+				step.Result = "ok"
+				if opErr != nil {
+					step.Result = "refused"
+				}
+				switch {
+				case opErr == nil && !wantOK:
+					fail(sigBase+"-succeeded-unexpectedly", "%s succeeded but the model refuses it", descr)
+				case opErr != nil && wantOK && !faulted:
+					fail(sigBase+"-refused-unexpectedly", "%s failed with %v but the model accepts it", descr, opErr)
+				case opErr != nil && !wantOK:
+					// refused as it must be: nothing may change (compared below)
+				case opErr == nil && (!faulted || !partialOK):
+					// reported success: the complete post-state must hold, storage fault or not
+					if apply != nil {
+						apply(model)
+					}
+					if partialOK {
+						if len(published) != len(wantPub) {
+							fail("publish-response-mismatch", "%s published %d endpoints, want %d", descr, len(published), len(wantPub))
+						}
+						for i, s := range wantPub {
+							if !nodeEq(published[i], s.Tunnel) {
+								fail("publish-response-mismatch", "published[%d] = %s want %s", i, nodeStr(published[i]), nodeStr(s.Tunnel))
+							}
+						}
+					}
+					if faulted && step.Op == "release" && pre.custom[opHost] != nil && got["S "+tun.CustomHostnameKey(opHost)] != "" {
+						// the binding survived a release that reported success
+						const sig = "release-reports-success-but-custom-binding-remains-after-storage-fault"
+						if ev.Known("C26", sig) {
+							rec.Excluded(sig)
+							model.custom[opHost] = pre.custom[opHost]
+						} else {
+							fail(sig, "%s reported success although deleting the custom-hostname binding failed (%v); the binding is still stored while the registration is gone", descr, firedCalls)
+						}
+					}
+				default:
+					// a storage fault hit an acceptable request that then failed, or a
+					// publish that succeeded for part of its servers: every key the
+					// request would change is in its old or its new state, nothing else moved
+					post := model.clone()
+					if apply != nil {
+						apply(post)
+					}
+					want0, want1 := pre.expected(), post.expected()
+					if d := diffEither(want0, want1, got); d != "" {
+						fail("kv-content-neither-old-nor-new-after-storage-fault:"+step.Op+":"+step.Result, "%s under storage fault %s (%s, failed calls %v): the DHT content is neither the old nor the new state for some key, or an unrelated key changed:\n%s", descr, fault, step.Result, firedCalls, d)
+					}
+					if opErr == nil { // partial publish: what the response lists must be stored
+						for _, pn := range published {
+							idx := -1
+							for i, s := range wantPub {
+								if nodeEq(pn, s.Tunnel) {
+									idx = i
+								}
+							}
+							if idx < 0 {
+								fail("publish-response-mismatch", "%s lists %s which was not requested", descr, nodeStr(pn))
+							}
+							k := "S " + tun.RoutingKey(opHost, idx+1)
+							if got[k] != want1[k] {
+								fail("publish-response-lists-route-that-is-not-stored", "%s lists %s as published but slot %d holds %q", descr, nodeStr(pn), idx+1, got[k])
+							}
+						}
+						if len(published) == 0 {
+							fail("publish-response-mismatch", "%s succeeded without publishing anything", descr)
+						}
+					}
+					model.resync(pre, post, got)
+				}
+				// ownership as the model now has it
+				for _, hi := range hosts {
+					hi.owner = nil
+					for _, cl := range clients {
+						if model.reg[cl.Token][hi.name] {
+							hi.owner = cl
+						}
+					}
+				}
+			}
+			// the whole store must equal the model after every step
 			if d := diffMaps(model.expected(), got); d != "" {
-				fail("kv-content-differs-from-model:"+step.Op+":"+step.Result, "after %s by %s (%s) the DHT content differs from the model:\n%s", step.Op, c.Name, step.Result, d)
+				fail("kv-content-differs-from-model:"+step.Op+":"+step.Result, "after %s (%s, storage fault %s, failed calls %v) the DHT content differs from the model:\n%s", descr, step.Result, fault, firedCalls, d)
 			}
 			steps = append(steps, step)
-			symbolic = append(symbolic, fmt.Sprintf("%s:%s:%s:%v:%s", step.Op, step.Client, step.Host, step.Servers, step.Claimed))
+			symbolic = append(symbolic, fmt.Sprintf("%s:%s:%s:%v:%s:%s", step.Op, step.Client, step.Host, step.Servers, step.Claimed, step.Fault))
 			rec.Add("steps", 1)
 			rec.Add("step:"+step.Op+":"+step.Result, 1)
+			if faulted {
+				rec.Add("steps_with_storage_fault_fired", 1)
+				rec.Add("faulted:"+step.Op+":"+step.Result, 1)
+			}
 		}
 		nt := crossClient && dupPublish
 		labels := []string{fmt.Sprintf("clients:%d", nClients)}
